@@ -1,68 +1,537 @@
 package main
 
+// C41 "Simultaneous peer connections converge on one shared connection".
+//
+//  1. decision tables extracted by running the real reuseConnection / reapPeer over real
+//     loopback QUIC against a scripted peer (c41_table.go)
+//  2. exhaustive explicit-state search of the two-peer negotiation, all interleavings, the
+//     three clauses of the statement evaluated in every quiescent state (c41_model.go)
+//  3. conformance: model traces replayed on two real transports with the order of the
+//     atomic steps forced through gates (c41_replay.go); every violating trace is replayed
+//     and only reported when the real transports follow it step by step.
+
 import (
 	"context"
+	"encoding/json"
 	"fmt"
+	"runtime"
 	"sort"
+	"strings"
+	"sync"
+	"time"
+
+	retry "github.com/avast/retry-go/v4"
 
 	"verif/engine/hmain"
 	"verif/engine/report"
 )
 
 func init() {
-	props["C41"] = hmain.Prop{Level: "model_checking", Run: c41}
+	props["C41"] = hmain.Prop{Level: "model_checking", Run: c41, Replay: c41Replay}
+	// the wait between getCachedConnection's two attempts is not part of the property
+	retry.VerifAfter = func(time.Duration) <-chan time.Time {
+		ch := make(chan time.Time, 1)
+		ch <- time.Time{}
+		return ch
+	}
+}
+
+// verdictInit: initial cache states reachable by the protocol itself (the search confirms
+// that every quiescent state reached from them is again one of them). The one-sided
+// states are explored and replayed as well, but they are assumed, not reached.
+func verdictInit(init string) bool { return init == "none" || init == "shared" }
+
+type c41Replayable struct {
+	Init    string   `json:"init"`
+	Dialers string   `json:"dialers"`
+	Trace   []string `json:"trace"`
+	Class   string   `json:"class"`
+}
+
+func parseStep(s string) (mstep, error) {
+	i := strings.IndexByte(s, '(')
+	if i < 0 || !strings.HasSuffix(s, ")") {
+		return mstep{}, fmt.Errorf("bad step %q", s)
+	}
+	kind, arg := s[:i], s[i+1:len(s)-1]
+	peer := func(n string) int {
+		if n == "B" {
+			return pB
+		}
+		return pA
+	}
+	conn := func(n string) int {
+		for c, cn := range connName {
+			if cn == n {
+				return c
+			}
+		}
+		return -1
+	}
+	switch kind {
+	case "check":
+		return mstep{"check", -1, peer(arg)}, nil
+	case "close406":
+		c := conn(arg)
+		if c < 0 {
+			return mstep{}, fmt.Errorf("bad step %q", s)
+		}
+		return mstep{"close406", c, 1 - dialerOf(c)}, nil
+	case "ext":
+		return mstep{"ext", conn(arg), pA}, nil
+	case "snap", "decide", "reap":
+		p := strings.Split(arg, "@")
+		if len(p) != 2 || conn(p[0]) < 0 {
+			return mstep{}, fmt.Errorf("bad step %q", s)
+		}
+		return mstep{kind, conn(p[0]), peer(p[1])}, nil
+	}
+	return mstep{}, fmt.Errorf("bad step %q", s)
+}
+
+func stepStrings(t []mstep) []string {
+	out := make([]string, len(t))
+	for i, e := range t {
+		out[i] = e.String()
+	}
+	return out
+}
+
+// violationClass names the violated clauses with role-abstracted witnesses (attempt numbers
+// dropped), so that the same race reached through different prefixes is one class.
+func violationClass(st *mstate, cfg mconfig) string {
+	cl := st.clauses(cfg)
+	if len(cl) == 0 {
+		return ""
+	}
+	role := func(c int) string { return "conn" + peerName[dialerOf(c)] }
+	var parts []string
+	if _, ok := cl["i"]; ok {
+		parts = append(parts, "i:A="+role(int(st.Cache[pA]))+",B="+role(int(st.Cache[pB])))
+	}
+	if _, ok := cl["ii"]; ok {
+		set := map[string]bool{}
+		for c := 0; c < nC; c++ {
+			if st.Reused[c] != 0 && closedByNegotiation(st.Closed[c]) {
+				who := ""
+				for s := 0; s < 2; s++ {
+					if st.Reused[c]&(1<<s) != 0 {
+						who += peerName[s]
+					}
+				}
+				set[fmt.Sprintf("%s-reusedBy%s-closed%dby%s", role(c), who, causeCode[st.Closed[c]], peerName[st.Closer[c]])] = true
+			}
+		}
+		var w []string
+		for k := range set {
+			w = append(w, k)
+		}
+		sort.Strings(w)
+		parts = append(parts, "ii:"+strings.Join(w, "+"))
+	}
+	if _, ok := cl["iii"]; ok {
+		var w []string
+		for s := 0; s < 2; s++ {
+			c := int(st.Cache[s])
+			if c >= 1 && int(st.Cache[1-s]) != c {
+				w = append(w, peerName[s]+"-caches-"+role(c))
+			}
+		}
+		parts = append(parts, "iii:"+strings.Join(w, "+"))
+	}
+	return strings.Join(parts, "/")
+}
+
+type replayJob struct {
+	cfg   mconfig
+	trace []mstep
+	why   string // "quiescent" | "violation" | "edge" | "all"
+	err   error
+}
+
+func runReplays(tb *tables, jobs []*replayJob) {
+	workers := runtime.NumCPU()
+	if workers > 12 {
+		workers = 12
+	}
+	var wg sync.WaitGroup
+	ch := make(chan *replayJob)
+	for w := 0; w < workers; w++ {
+		wg.Add(1)
+		go func() {
+			defer wg.Done()
+			for j := range ch {
+				j.err = replayTrace(j.cfg, tb, j.trace)
+			}
+		}()
+	}
+	for _, j := range jobs {
+		ch <- j
+	}
+	close(ch)
+	wg.Wait()
+}
+
+// completion[i]: an edge on a shortest path from i to a quiescent state (-1 at quiescent states).
+func (g *mgraph) completions() []int {
+	n := len(g.states)
+	dist := make([]int, n)
+	next := make([]int, n)
+	for i := range dist {
+		dist[i], next[i] = -1, -1
+	}
+	// states are in BFS order of a DAG whose edges may skip levels; iterate to a fixpoint from the back
+	for changed := true; changed; {
+		changed = false
+		for i := n - 1; i >= 0; i-- {
+			best, bk := -1, -1
+			if g.quiet[i] {
+				best = 0
+			} else {
+				for k, e := range g.succ[i] {
+					if d := dist[e.To]; d >= 0 && (best < 0 || d+1 < best) {
+						best, bk = d+1, k
+					}
+				}
+			}
+			if best != dist[i] {
+				dist[i], next[i], changed = best, bk, true
+			}
+		}
+	}
+	return next
+}
+
+// edgeCover returns complete traces that together traverse every transition of the graph.
+func (g *mgraph) edgeCover() [][]mstep {
+	next := g.completions()
+	covered := make([][]bool, len(g.states))
+	for i := range covered {
+		covered[i] = make([]bool, len(g.succ[i]))
+	}
+	var out [][]mstep
+	for i := range g.states {
+		for k := range g.succ[i] {
+			if covered[i][k] {
+				continue
+			}
+			// prefix: mark the BFS-tree edges it uses as covered too
+			tr := g.trace(i)
+			cur := 0
+			for _, e := range tr {
+				for kk, ed := range g.succ[cur] {
+					if ed.Step == e {
+						covered[cur][kk] = true
+						cur = ed.To
+						break
+					}
+				}
+			}
+			cur, kk := i, k
+			for {
+				covered[cur][kk] = true
+				tr = append(tr, g.succ[cur][kk].Step)
+				cur = g.succ[cur][kk].To
+				kk = -1
+				for j := range g.succ[cur] {
+					if !covered[cur][j] {
+						kk = j
+						break
+					}
+				}
+				if kk < 0 {
+					if g.quiet[cur] {
+						break
+					}
+					kk = next[cur]
+				}
+			}
+			out = append(out, tr)
+		}
+	}
+	return out
+}
+
+// allTraces enumerates every complete trace (path from the initial state to a quiescent state).
+func (g *mgraph) allTraces(limit int) [][]mstep {
+	var out [][]mstep
+	var cur []mstep
+	var rec func(i int)
+	rec = func(i int) {
+		if len(out) >= limit {
+			return
+		}
+		if g.quiet[i] {
+			out = append(out, append([]mstep(nil), cur...))
+		}
+		for _, e := range g.succ[i] {
+			cur = append(cur, e.Step)
+			rec(e.To)
+			cur = cur[:len(cur)-1]
+		}
+	}
+	rec(0)
+	return out
+}
+
+type classInfo struct {
+	cfg    mconfig
+	state  int
+	trace  []mstep
+	count  int
+	reason map[string]string
+	out    string
 }
 
 func c41(c *report.Check) {
-	tb, err := extractTables(context.Background())
+	ctx := context.Background()
+
+	// ---- 1. tables from the real code ----
+	tb, err := extractTables(ctx)
 	if err != nil {
-		c.Internal(err.Error())
+		c.Internal("table extraction: " + err.Error())
 		return
 	}
+	tdist := report.NewDistinct(0)
+	for _, k := range tb.sortedKeys() {
+		tdist.See(tb.Decide[k].class(), nil)
+	}
+	c.Set("table_rows_on_real_code", tb.Rows)
+	c.Set("table_outcome_classes", tdist.N())
+	c.Set("table_decide", tb.render(true))
+	sent := []string{}
+	for _, d := range allDirs {
+		for _, s := range allSnaps {
+			sent = append(sent, d+s+" sends "+tb.Sent[d+s])
+		}
+	}
+	c.Set("table_status_sent", sent)
+	c.Set("table_reap", tb.Reap)
+
+	// ---- 2. exhaustive search ----
+	states, trans, quiescent := 0, 0, 0
+	var totalTraces uint64
+	graphs := map[mconfig]*mgraph{}
+	var cfgs []mconfig
+	perCfg := []string{}
+	outcomes := report.NewDistinct(8)
+	classes := map[string]*classInfo{}     // verdict-bearing
+	condClasses := map[string]*classInfo{} // assumed one-sided initial states
+	deadDial := 0
+	closureBroken := []string{}
+	var jobs []*replayJob
 	for _, in := range allInits {
 		for _, dl := range allDialers {
 			cfg := mconfig{in, dl}
 			g, err := explore(cfg, tb)
 			if err != nil {
-				c.Internal(err.Error())
+				c.Internal("model: " + err.Error())
 				return
 			}
-			nq := 0
-			outs := map[string]int{}
-			viol := map[string]int{}
-			first := map[string]int{}
+			cfgs = append(cfgs, cfg)
+			graphs[cfg] = g
+			states += len(g.states)
+			trans += g.trans
+			nt := g.completeTraces()
+			totalTraces += nt
+			nq, nv := 0, 0
 			for i := range g.states {
 				if !g.quiet[i] {
 					continue
 				}
 				nq++
-				outs[g.states[i].outcome()]++
-				cl := g.states[i].clauses(cfg)
-				ks := []string{}
-				for k := range cl {
-					ks = append(ks, k)
-				}
-				sort.Strings(ks)
-				if len(ks) > 0 {
-					k := fmt.Sprint(ks)
-					viol[k]++
-					if _, ok := first[k]; !ok {
-						first[k] = i
+				st := &g.states[i]
+				tr := g.trace(i)
+				outcomes.See(cfg.String()+" "+st.outcome(), map[string]any{"config": cfg.String(), "trace": traceStr(tr), "outcome": st.outcome()})
+				for s := 0; s < 2; s++ {
+					if d := st.Dial[s]; d.Conn >= 0 && closedByNegotiation(st.Closed[d.Conn]) {
+						deadDial++
+						break
 					}
 				}
+				if verdictInit(in) && st.Cache[pA] != st.Cache[pB] {
+					closureBroken = append(closureBroken, cfg.String()+": "+st.outcome())
+				}
+				why := "quiescent"
+				if cls := violationClass(st, cfg); cls != "" {
+					nv++
+					why = "violation"
+					m := classes
+					if !verdictInit(in) {
+						m = condClasses
+					}
+					ci, ok := m[cls]
+					if !ok || len(tr) < len(ci.trace) {
+						n := 0
+						if ok {
+							n = ci.count
+						}
+						ci = &classInfo{cfg: cfg, state: i, trace: tr, count: n, reason: st.clauses(cfg), out: st.outcome()}
+						m[cls] = ci
+					}
+					ci.count++
+				}
+				// conformance: the shortest trace to EVERY quiescent state (all violating ones included)
+				jobs = append(jobs, &replayJob{cfg: cfg, trace: tr, why: why})
 			}
-			fmt.Printf("%s states=%d trans=%d quiescent=%d traces=%d outcomes=%d viol=%v\n", cfg, len(g.states), g.trans, nq, g.completeTraces(), len(outs), viol)
-			for k, i := range first {
-				fmt.Printf("   %s depth=%d: %s\n      => %s %v\n", k, g.depth[i], g.traceString(i), g.states[i].outcome(), g.states[i].clauses(cfg))
-			}
-			os := []string{}
-			for o := range outs {
-				os = append(os, o)
-			}
-			sort.Strings(os)
-			for _, o := range os {
-				fmt.Printf("      %4d %s\n", outs[o], o)
-			}
+			quiescent += nq
+			perCfg = append(perCfg, fmt.Sprintf("%s: states=%d transitions=%d quiescent=%d violating_quiescent=%d complete_interleavings=%d", cfg, len(g.states), g.trans, nq, nv, nt))
 		}
 	}
+	nEdge, nAll := 0, 0
+	if c.Thorough() {
+		for _, cfg := range cfgs {
+			for _, tr := range graphs[cfg].edgeCover() {
+				jobs = append(jobs, &replayJob{cfg: cfg, trace: tr, why: "edge"})
+				nEdge++
+			}
+		}
+	} else {
+		// quick: transition cover of the core scenario only
+		for _, tr := range graphs[mconfig{"none", "AB"}].edgeCover() {
+			jobs = append(jobs, &replayJob{cfg: mconfig{"none", "AB"}, trace: tr, why: "edge"})
+			nEdge++
+		}
+	}
+	c.Set("states", states)
+	c.Set("transitions", trans)
+	c.Set("quiescent_states", quiescent)
+	c.Set("complete_interleavings_in_model", totalTraces)
+	c.Set("per_configuration", perCfg)
+	c.Set("distinct_nontrivial", outcomes.N())
+	c.Set("samples", outcomes.Samples)
+	c.Set("quiescent_states_where_a_dial_returned_a_connection_closed_by_the_negotiation", deadDial)
+	if len(closureBroken) > 0 {
+		c.Set("quiescent_states_with_unequal_caches_from_consistent_init", closureBroken)
+	} else {
+		c.Set("closure", "every quiescent state reached from init=none/shared has equal caches on both peers (none, or one shared connection): the consistent initial states are closed under the protocol; one-sided initial states are assumed, not reached")
+	}
+
+	// ---- 3. conformance on the real transports ----
+	runReplays(tb, jobs)
+	okN, byWhy := 0, map[string]int{}
+	var bad []string
+	failed := map[string]bool{}
+	for _, j := range jobs {
+		if j.err != nil {
+			bad = append(bad, fmt.Sprintf("%s [%s]: %v", j.cfg, traceStr(j.trace), j.err))
+			failed[j.cfg.String()+"|"+traceStr(j.trace)] = true
+			continue
+		}
+		okN++
+		byWhy[j.why]++
+	}
+	sort.Strings(bad)
+	c.Set("traces_replayed_on_real_transports", okN)
+	c.Set("traces_replayed_by_kind", byWhy)
+	c.Set("traces_validated_against_impl", tb.Rows+okN)
+	c.Set("evaluations", tb.Rows+okN)
+	_ = nAll
+	c.Set("rule", "table: every (direction x cache at snapshot x cache at decision x peer status incl. malformed) row run on the real reuseConnection, every reapPeer row; model: BFS over all interleavings of the atomic steps for each (initial cache state x who dials); conformance: shortest trace to every quiescent state (every violating one included) plus a transition cover, replayed on two real transports through gates, compared after every step")
+	if len(bad) > 0 {
+		for i, b := range bad {
+			if i < 5 {
+				c.Internal("model/implementation mismatch (the model is wrong, not the code): " + b)
+			}
+		}
+		c.Set("replay_mismatches", len(bad))
+	}
+
+	// ---- verdicts ----
+	report1 := func(m map[string]*classInfo) []map[string]any {
+		var ks []string
+		for k := range m {
+			ks = append(ks, k)
+		}
+		sort.Strings(ks)
+		var out []map[string]any
+		for _, k := range ks {
+			ci := m[k]
+			out = append(out, map[string]any{"class": k, "config": ci.cfg.String(), "violating_quiescent_states": ci.count, "minimal_trace": traceStr(ci.trace), "end_state": ci.out, "clauses": ci.reason})
+		}
+		return out
+	}
+	c.Set("violation_classes", report1(classes))
+	c.Set("conditional_violation_classes_from_assumed_one_sided_init", report1(condClasses))
+	var ks []string
+	for k := range classes {
+		ks = append(ks, k)
+	}
+	sort.Strings(ks)
+	for _, k := range ks {
+		ci := classes[k]
+		if failed[ci.cfg.String()+"|"+traceStr(ci.trace)] {
+			continue // already an internal error: not confirmed on the real code
+		}
+		var rs []string
+		for _, cl := range []string{"i", "ii", "iii"} {
+			if r, ok := ci.reason[cl]; ok {
+				rs = append(rs, "("+cl+") "+r)
+			}
+		}
+		c.Violation("c41:"+k,
+			fmt.Sprintf("%s, trace [%s] confirmed step by step on two real QUIC transports: %s; end state %s", ci.cfg, traceStr(ci.trace), strings.Join(rs, "; "), ci.out),
+			c41Replayable{Init: ci.cfg.Init, Dialers: ci.cfg.Dialers, Trace: stepStrings(ci.trace), Class: k})
+	}
+
+	c.Set("exhaustive", true)
+	c.Assume(
+		"composition is the model's: two peers, one dial task per peer (getCachedConnection with its two attempts), reliable FIFO delivery of the negotiation messages (a status sent before a close is delivered; the code itself carries a TODO about this), connection close is observed by both ends before the next step",
+		"atomic steps are the critical sections of QUIC.cachedMutex (check, snapshot, decision, reapPeer) plus the accept loop's delayed close and an environment close of the pre-existing connection; all decisions come from tables extracted from the real functions in this run",
+		"not explored: more than one concurrent dial task per peer, more than two peers, the periodic reaper timer (first tick >= 7.5 s), loss of the status message when the sender closes right after sending, certificate identities (VirtualTransport configuration of the chord transport is used)",
+		"one-sided initial states (only one peer caches the live pre-existing connection, with its close watcher still armed on the other) are assumed: their violations are listed as conditional, not as verdicts",
+		"waits for QUIC events use explicit notifications (gate arrival, lock release, connection context) with a 30 s bound whose expiry is an internal error",
+	)
+}
+
+func c41Replay(c *report.Check, raw []byte) {
+	var r c41Replayable
+	if err := json.Unmarshal(raw, &r); err != nil {
+		c.Internal(err.Error())
+		return
+	}
+	tb, err := extractTables(context.Background())
+	if err != nil {
+		c.Internal("table extraction: " + err.Error())
+		return
+	}
+	cfg := mconfig{r.Init, r.Dialers}
+	st := initState(cfg)
+	var tr []mstep
+	for _, s := range r.Trace {
+		e, err := parseStep(s)
+		if err != nil {
+			c.Internal(err.Error())
+			return
+		}
+		en := false
+		for _, x := range st.enabled() {
+			if x == e {
+				en = true
+			}
+		}
+		if !en {
+			fmt.Printf("step %s is no longer enabled in the model extracted from this tree\n", e)
+			return
+		}
+		if st, _, err = st.apply(e, tb); err != nil {
+			c.Internal(err.Error())
+			return
+		}
+		tr = append(tr, e)
+	}
+	if !st.quiescent() {
+		fmt.Println("trace no longer ends in a quiescent state")
+		return
+	}
+	cls := violationClass(&st, cfg)
+	if cls == "" {
+		fmt.Println("the end state no longer violates the statement")
+		return
+	}
+	if err := replayTrace(cfg, tb, tr); err != nil {
+		c.Internal("trace does not replay on the real transports: " + err.Error())
+		return
+	}
+	c.Violation("c41:"+cls, "replayed on two real QUIC transports: "+st.outcome(), r)
 }
